@@ -37,7 +37,8 @@ def lit(n):
     return n
 
 class Fn:
-    def __init__(s, decl, short, callees=None, inlines=None):
+    def __init__(s, decl, short, callees=None, inlines=None, style='let'):
+        s.style = style
         s.callees = callees or {}; s.inlines = inlines or {}; s.inl_n = 0; s.inl_ret = []
         s.d = decl; s.short = short; s.lines = []; s.consts = []; s.ins = []; s.outs = {}; s.params = {}
         s.arr_in = {}; s.locals = set(); s.constnames = {}
@@ -202,7 +203,8 @@ class Fn:
         return name if used else None
     def let(s, name, e):
         if e == name: return
-        s.lines.append('  let %s := %s in' % (name, e))
+        if s.style == 'bind': s.lines.append('  bind %s (fun %s =>' % (e if e.startswith('(') or e.replace('_', '').isalnum() else '(%s)' % e, name))
+        else: s.lines.append('  let %s := %s in' % (name, e))
     def stmt(s, n):
         k = n['kind']
         if getattr(s, 'returned', False): raise Unsupported('statement after return')
@@ -304,7 +306,10 @@ class Fn:
         kty = ' -> '.join(['Z'] * len(outs) + ['T'])
         o.append('Definition %s_k {T} (%s : Z) (k : %s) : T :=' % (s.short, ' '.join(ins), kty))
         o += s.lines
-        o.append('  k %s.' % ' '.join(outs))
+        if s.style == 'bind':
+            o[2] = 'Require Import Kernel.CSem Kernel.Bind.'
+            o.append('  k %s%s.' % (' '.join(outs), ')' * len(s.lines)))
+        else: o.append('  k %s.' % ' '.join(outs))
         if s.has_ret and len(outs) == 1:
             o.append('Definition %s (%s : Z) : Z := %s_k %s (fun ret => ret).' % (s.short, ' '.join(ins), s.short, ' '.join(ins)))
         else:
@@ -332,15 +337,15 @@ def ast_of(repo, fn, defines=()):
     finally:
         os.unlink(tu.name)
 
-def translate(repo, fn, defines=(), callees=None, requires=(), inlines=()):
+def translate(repo, fn, defines=(), callees=None, requires=(), inlines=(), style='let', short=None):
     """callees: {callee C name: parameter spec list} for value-returning functions already translated;
     inlines: names of functions (same subset) whose calls are translated in place"""
     d = ast_of(repo, fn, defines)
-    short = fn.replace('secp256k1_', '')
-    f = Fn(d, short, callees, {g: ast_of(repo, g, defines) for g in inlines})
+    short = short or fn.replace('secp256k1_', '')
+    f = Fn(d, short, callees, {g: ast_of(repo, g, defines) for g in inlines}, style)
     text, ins, outs = f.run()
     if requires:
-        text = text.replace('Require Import Kernel.CSem.', 'Require Import Kernel.CSem %s.' % ' '.join('Gen.' + r for r in requires))
+        text = text.replace('Require Import Kernel.CSem', 'Require Import %s Kernel.CSem' % ' '.join('Gen.' + r for r in requires), 1)
     translate.last = f
     return text, ins, outs
 
